@@ -10,6 +10,10 @@
    labels; a label that is not enabled is skipped, so "every interleaving,
    every GOMAXPROCS, commands that never return" is "forall schedule".
    The user's program (model type, update, commands' results) is a parameter.
+   Not in this model: WithFilter (the filter's effect on one message is the L0
+   theorem C16; composing it here would replace every message by the filter's
+   verdict before the dispatch), Exec / suspend, the input reader as a sender
+   (it is one more sender goroutine).
    No proofs in this file. *)
 From Coq Require Import List Bool Arith.
 Import ListNotations.
@@ -20,7 +24,7 @@ Definition cmdid := nat.
 Inductive msg :=
 | MNil                                   (* a command returned nil: Send(nil) *)
 | MUser (tag : nat)                      (* any message that is not special to the runtime *)
-| MQuit
+| MQuit                                  (* QuitMsg or InterruptMsg: the loop returns without calling Update *)
 | MBatch (cs : list (option cmdid))      (* BatchMsg: the commands of a Batch (nil entries possible in a raw BatchMsg) *)
 | MSeq (cs : list (option cmdid)).       (* sequenceMsg *)
 
